@@ -73,6 +73,16 @@ CHECKS = {
              'native status. Held on the histories explored (after the fix commit for the not-started teardown).',
         note='Trusted: /proc, an independent ptrace seize (reftrace inspect) for the debug registers of released processes, the native run.',
         ref='DESIGN.md §4 C11'),
+    'C14': dict(
+        technique='runtime monitoring: invariant monitor after every command (independent PTRACE_PEEKUSER of DR0-7 of every thread, decoded per the SDM, vs watchpoint_list() and a model) plus an exhaustive run of the DR7 encoder against the SDM formula',
+        text='Seeded histories of add (address / global expression / local expression) / refusable requests (fifth, same address, size 3, misaligned) '
+             '/ remove (number, address, expression) / continue / restart over six locations of programs that create threads while the history '
+             'runs; after every command the enabled slots decoded from the registers of every kernel thread must equal the debugger\'s list and '
+             'the model, refusals must leave registers, list and text unchanged, local watchpoints vanish at their end-of-scope stop, global ones are '
+             're-armed after restart; the encoder is checked on all 2^20 prior images x slot x condition x size. The "every write stops once" clause '
+             'is inconclusive here: the VM does not deliver hardware data breakpoints (probed at run time).',
+        note='Trusted: SDM vol. 3 17.2.4 DR7 layout in the monitor\'s decoder, PTRACE_PEEKUSER. Held on the histories explored after three fix commits.',
+        ref='DESIGN.md §4 C14'),
     'C06': dict(
         technique='runtime monitoring: structural comparison of the debugger\'s Value trees with the debuggee\'s own canonical self-description (reference model = safe Rust in the program)',
         text='Generated programs hold ~40 variables each (locals, statics, thread-locals, arguments) from a recursive type grammar with boundary '
